@@ -206,6 +206,7 @@ namespace verif
         std::set<int> kinds;
         bool segmented = false;
         std::string desc;
+        unsigned timeouts_follow = 0;
         for (unsigned i = 0; i < n; ++i)
         {
             Req& r   = reqs[i];
@@ -214,6 +215,14 @@ namespace verif
             r.gap_ms = c.coin(60) ? int(c.pick(20)) : 0;
             if (c.coin(60))
                 r.timeout_ms = 300 + int(c.pick(8)) * 100;
+            // aim at "a request times out while requests that carry a time-out themselves are queued
+            // behind the connection limit": the requests following one that will time out usually get one
+            if (timeouts_follow > 0)
+            {
+                --timeouts_follow;
+                if (!r.timeout_ms && c.coin(200))
+                    r.timeout_ms = 600 + int(c.pick(5)) * 100;
+            }
             unsigned b = c.pick(16);
             Plan& p    = r.plan;
             if (b < 5)
@@ -252,6 +261,11 @@ namespace verif
             }
             if (p.b == Delayed)
                 segmented = true;
+            if (p.b == NeverAnswer || p.b == LateAnswer)
+            {
+                timeouts_follow = 1 + c.pick(4);
+                rep.label("timeout-with-timed-requests-queued");
+            }
             kinds.insert(int(p.b));
             if (i < 8)
                 desc += r.tag + ":" + BNAMES[p.b] + (r.timeout_ms ? "(timeout " + std::to_string(r.timeout_ms) + "ms)" : "") + " ";
